@@ -7,6 +7,11 @@ Tie:    the `translate` harness engine runs translate_pk on generated miniscript
         the text form and definite -> derived keys; results, error classes and the translator's call log, and
         iter_pk / for_each_key, are compared with the model INSIDE Coq (Tables/TranslateCasesGen.v generated,
         Tables/TranslateCasesCheck.v by vm_compute).
+        Extension: `TH` lines — translate_pk with NON-identity hash translators (injective / constant / failing on a hash /
+        failing on a hash kind, one call counter over all translator methods) on miniscripts and descriptors containing
+        hashes and on every concrete / semantic policy, and the policies' keys / for_each_key / for_any_key — are compared
+        with Ms/TranslateHashModel.v and Ms/TranslatePolModel.v inside Coq (Tables/TranslateHashCasesGen.v generated,
+        Tables/TranslateHashCasesCheck.v by vm_compute; theorems C20_pol_* and C20_trh_* in Properties/C20.v).
 Oracle: independent of the model: the result's dump must be the original dump with the key tokens substituted
         (computed here on the token level), the script must be the byte-level substitution of the original
         script (computed in the harness with rust-bitcoin only), types are kept, a failure must have a cause
@@ -38,7 +43,7 @@ def ilist(s):
 
 
 def parse_output(text):
-    o = {"KU": {}, "M": {}, "V": {}, "I": {}, "T": [], "D": {}, "C": {}, "X": 0}
+    o = {"KU": {}, "M": {}, "V": {}, "I": {}, "T": [], "TH": [], "D": {}, "C": {}, "X": 0}
     for line in text.splitlines():
         f = line.split(" | ")
         k = f[0]
@@ -54,6 +59,9 @@ def parse_output(text):
         elif k == "T":
             o["T"].append({"dom": f[1], "vid": int(f[2]), "mapid": int(f[3]), "res": f[4], "calls": ilist(f[5]),
                            "ty": f[6], "script": f[7], "eq": f[8], "slen": f[9] if len(f) > 9 else "-"})
+        elif k == "TH":
+            o["TH"].append({"dom": f[1], "vid": int(f[2]), "mapid": int(f[3]), "hmode": int(f[4]), "harg": "" if f[5] == "-" else f[5],
+                            "res": f[6], "calls": [] if f[7] == "-" else f[7].split(), "eq": f[8]})
         elif k == "D":
             o["D"].setdefault(f[1], {})[int(f[2])] = f[3]
         elif k == "C":
@@ -219,13 +227,304 @@ def oracle(rep, o, seed):
 
 
 class Namer:
-    def __init__(self):
+    def __init__(self, prefix="hx"):
         self.names = {}
+        self.prefix = prefix
 
     def __call__(self, h):
         if h not in self.names:
-            self.names[h] = "hx%d" % len(self.names)
+            self.names[h] = "%s%d" % (self.prefix, len(self.names))
         return self.names[h]
+
+
+# ------------------------------------------------------------------ hash-translating runs and the policy model
+HKIND = ["HSha256", "HHash256", "HRipemd160", "HHash160"]
+HTAGS = {"sha256": 0, "hash256": 1, "ripemd160": 2, "hash160": 3}
+POL_DOMS = ["conc", "sem"]
+
+
+def hmap_apply(mode, arg, kind, h):
+    """the harness's hash mapping (translate.rs HMap::apply), on hex strings; None = the translator fails"""
+    flip = lambda x: "%02x" % (int(x[:2], 16) ^ 1) + x[2:] if x else x
+    if mode == 0:
+        return h
+    if mode == 1:
+        return flip(h)
+    if mode == 2:
+        return arg[:len(h)]
+    if mode == 3:
+        return None if h == arg else flip(h)
+    return None if arg and int(arg[:2], 16) == kind else h
+
+
+def hash_positions(dump):
+    tok = dump.split()
+    return [(i + 1, HTAGS[t]) for i, t in enumerate(tok[:-1]) if t in HTAGS and re.fullmatch(r"(?:[0-9a-f]{2})+", tok[i + 1])]
+
+
+def pol_term(dump, nm):
+    """Gallina term (type `cpol` of Ms/EqOrdPolModel.v) of a policy dump of translate.rs (cdump / sdump)"""
+    tok = dump.split()
+
+    def rec(pos):
+        t = tok[pos]
+        if t == "unsat":
+            return "QUnsat", pos + 1
+        if t == "triv":
+            return "QTriv", pos + 1
+        if t in ("key", "after", "older"):
+            return "(%s %d)" % ({"key": "QKey", "after": "QAfter", "older": "QOlder"}[t], int(tok[pos + 1])), pos + 2
+        if t in HTAGS:
+            return "(%s %s)" % ({"sha256": "QSha256", "hash256": "QHash256", "ripemd160": "QRipemd160", "hash160": "QHash160"}[t],
+                                nm(tok[pos + 1])), pos + 2
+        if t == "and":
+            n, pos, xs = int(tok[pos + 1]), pos + 2, []
+            for _ in range(n):
+                x, pos = rec(pos)
+                xs.append(x)
+            return "(QAnd [%s])" % "; ".join(xs), pos
+        if t == "or":
+            n, pos, xs = int(tok[pos + 1]), pos + 2, []
+            for _ in range(n):
+                if not tok[pos].endswith("@"):
+                    raise DumpError("odds expected in %r" % dump)
+                odds = int(tok[pos][:-1])
+                x, pos = rec(pos + 1)
+                xs.append("(%d, %s)" % (odds, x))
+            return "(QOr [%s])" % "; ".join(xs), pos
+        if t == "thresh":
+            k, n, pos, xs = int(tok[pos + 1]), int(tok[pos + 2]), pos + 3, []
+            for _ in range(n):
+                x, pos = rec(pos)
+                xs.append(x)
+            return "(QThresh %d [%s])" % (k, "; ".join(xs)), pos
+        raise DumpError("unknown policy token %r in %r" % (t, dump))
+
+    try:
+        t, pos = rec(0)
+    except (IndexError, ValueError):
+        raise DumpError("unparsable policy dump %r" % dump)
+    if pos != len(tok):
+        raise DumpError("trailing tokens in %r" % dump)
+    return t
+
+
+def call_fails(c, idx, fp, fa, mode, arg):
+    if fa == idx:
+        return True
+    if c[0] == "k":
+        k = int(c[1:])
+        return k < len(fp) and fp[k] is None
+    kind, h = c[1:].split(":")
+    return hmap_apply(mode, arg, int(kind), h) is None
+
+
+def oracle_hash(rep, o, seed, st):
+    """judge the hash-translating runs without the model: the result is the original with keys and hashes substituted,
+    the translator is called once per key / hash occurrence, a failure is caused by the failing call and by no earlier one"""
+    st.update({"hash_cases": 0, "hash_ok": 0, "hash_translator_err": 0, "hash_outer_err": 0, "by_hash_mode": {}})
+
+    def viol(key, what, t, extra):
+        st["by_key"][key] = st["by_key"].get(key, 0) + 1
+        dom, vid = t["dom"], t["vid"]
+        r = {"property": PID, "seed": seed, "domain": dom, "value": o["V"][dom][vid], "key": key, "what": what}
+        r.update(extra)
+        rep.violation(key, ("%s [%s] %s %s" % (what, dom, o["V"][dom][vid], json.dumps(extra, sort_keys=True)))[:1500], r, True)
+
+    for t in o["TH"]:
+        dom, vid = t["dom"], t["vid"]
+        name, fp, fa = o["M"][t["mapid"]]
+        mode, arg = t["hmode"], t["harg"]
+        dump = o["V"][dom][vid]
+        st["hash_cases"] += 1
+        st["by_hash_mode"][str(mode)] = st["by_hash_mode"].get(str(mode), 0) + 1
+        ex = {"mapping": {"name": name, "fp": fp, "fail_at": fa, "hash_mode": mode, "hash_arg": arg}, "result": t["res"], "calls": t["calls"]}
+        res = t["res"].split(" ", 1)
+        tok = dump.split()
+        atoms = sorted(["k%s" % tok[i] for i in key_positions(dom, dump)] + ["h%d:%s" % (k, tok[i]) for i, k in hash_positions(dump)])
+        fails = [call_fails(c, i, fp, fa, mode, arg) for i, c in enumerate(t["calls"])]
+        if res[0] == "PANIC":
+            viol("translate-panic", "translate_pk panics", t, ex)
+        elif res[0] == "OK":
+            st["hash_ok"] += 1
+            want = subst_dump(dom, dump, fp)
+            if want is not None:
+                wt = want.split()
+                for i, k in hash_positions(dump):
+                    h = hmap_apply(mode, arg, k, tok[i])
+                    if h is None:
+                        want = None
+                        break
+                    wt[i] = h
+                else:
+                    want = " ".join(wt)
+            if any(fails) or want is None:
+                viol("ok-despite-failing-map", "translation succeeds although the mapping fails on a key or hash of the value", t, ex)
+            elif res[1] != want:
+                ex["expected"] = want
+                viol("structure", "the translation is not the original with the keys and hashes substituted", t, ex)
+            if sorted(t["calls"]) != atoms:
+                viol("calls", "the translator is not called exactly once per key / hash occurrence", t, ex)
+            if t["eq"] == "0":
+                viol("identity", "the identity mapping (keys and hashes) does not yield an equal object", t, ex)
+        elif res[0] == "ET":
+            st["hash_translator_err"] += 1
+            i = int(res[1])
+            if len(fails) != i + 1 or not fails[i] or any(fails[:i]):
+                viol("fail-without-cause", "translator error although the mapping did not fail on that call (or failed earlier)", t, ex)
+            rest = list(atoms)
+            for c in t["calls"]:
+                if c in rest:
+                    rest.remove(c)
+                else:
+                    viol("calls", "the translator is called on something that does not occur in the value", t, ex)
+                    break
+        elif res[0] == "EO":
+            st["hash_outer_err"] += 1
+            ctx = value_ctx(dom, dump)
+            kinds = o["KU"][dom]
+            illegal = [k for k in checked_keys(dom, dump) if k < len(fp) and fp[k] is not None and kinds[fp[k]] in ILLEGAL[ctx]] if ctx else []
+            if res[1] not in ("uncompressed", "xonly", "size") or (res[1] != "size" and not illegal):
+                viol("fail-other:%s" % res[1], "translation with a hash mapping fails with a context error although no mapped key is illegal", t, ex)
+        if res[0] != "OK" and not any(fails) and res[0] != "EO":
+            viol("fail-without-cause", "translation fails although the mapping is defined on every key and hash it was called on", t, ex)
+
+
+def atom_term(c, nm):
+    if c[0] == "k":
+        return "AKey %d" % int(c[1:])
+    kind, h = c[1:].split(":")
+    return "AHash %s %s" % (HKIND[int(kind)], nm(h))
+
+
+def gen_hash_coq(o):
+    """Tables/TranslateHashCasesGen.v: the hash-translating cases of the miniscript / descriptor domains (values are those of
+    TranslateCasesGen.v) and the policy domains with their values, cases and key-iteration observations"""
+    nm = Namer("hy")
+    body, hn, dn, pn = [], [], [], []
+
+    def term_of(dom):
+        if dom in MS_DOMS:
+            def ms_term(dump):
+                tok = dump.split()
+                t, pos = parse_ms(tok, 0, [], nm)
+                if pos != len(tok):
+                    raise DumpError("trailing tokens in %r" % dump)
+                return t
+            return ms_term
+        if dom in DESC_DOMS:
+            return lambda dump: c19_desc_term(dump, nm)
+        return lambda dump: pol_term(dump, nm)
+
+    for dom in MS_DOMS + DESC_DOMS + POL_DOMS:
+        cid = dom.replace("-", "_")
+        term = term_of(dom)
+        ty = "ms" if dom in MS_DOMS else "desc" if dom in DESC_DOMS else "cpol"
+        cases = []
+        for t in o["TH"]:
+            if t["dom"] != dom:
+                continue
+            name, fp, fa = o["M"][t["mapid"]]
+            cases.append("(%d, %s, %s, %d, %s, %s, [%s])" % (
+                t["vid"], opt_list(fp), "None" if fa is None else "Some %d" % fa, t["hmode"], nm(t["harg"]) if t["harg"] else "[]",
+                robs(t["res"], term), "; ".join(atom_term(c, nm) for c in t["calls"])))
+        cn = []
+        for c, ch in enumerate(chunks(cases, 300)):
+            body.append("Definition hcases_%s_%d : list (hcase %s) := [%s]." % (cid, c, ty, ";\n  ".join(ch)))
+            cn.append("hcases_%s_%d" % (cid, c))
+        body.append("Definition hcases_%s : list (hcase %s) := %s." % (cid, ty, " ++ ".join(cn)))
+        if dom in MS_DOMS:
+            body.append("Definition hdom_%s : hdom := mkHDom %s kinds_%s tvals_%s hcases_%s." % (cid, CTX[dom], cid, cid, cid))
+            hn.append("hdom_%s" % cid)
+        elif dom in DESC_DOMS:
+            body.append("Definition hddom_%s : hddom := mkHDDom kinds_%s tvals_%s hcases_%s." % (cid, cid, cid, cid))
+            dn.append("hddom_%s" % cid)
+        else:
+            vals = o["V"].get(dom, {})
+            terms = [term(vals[i]) for i in range(len(vals))]
+            cn = []
+            for c, ch in enumerate(chunks(terms, 200)):
+                body.append("Definition pvals_%s_%d : list cpol := [%s]." % (cid, c, ";\n  ".join(ch)))
+                cn.append("pvals_%s_%d" % (cid, c))
+            body.append("Definition pvals_%s : list cpol := %s." % (cid, " ++ ".join(cn)))
+            ic = []
+            for vid, (it, allv, each, strk, anyv, short) in sorted(o["I"].get(dom, {}).items()):
+                extra = "None"
+                if each and anyv != "-" and short not in ("-", ""):
+                    j, r, vis = short.split(":")
+                    extra = "Some (%d, %s, %d, %s, [%s])" % (each[0], "true" if anyv == "1" else "false", each[len(each) // 2],
+                                                             "true" if r == "1" else "false", "; ".join(map(str, ilist(vis))))
+                ic.append("(%d, [%s], %s, [%s], %s)" % (vid, "; ".join(map(str, it)), "true" if allv else "false",
+                                                        "; ".join(map(str, each)), extra))
+            body.append("Definition picases_%s : list picase := [%s]." % (cid, ";\n  ".join(ic)))
+            body.append("Definition pdom_%s : pdom := mkPDom %s pvals_%s hcases_%s picases_%s." % (
+                cid, "true" if dom == "sem" else "false", cid, cid, cid))
+            pn.append("pdom_%s" % cid)
+    head = ["(* generated by tools/props/c20.py from the output of `verif-harness translate`; do not edit *)",
+            "From Verif Require Import TranslateHashRun TranslateCasesGen.", "Local Open Scope N_scope."]
+    for h, n in sorted(nm.names.items(), key=lambda x: int(x[1][2:])):
+        head.append("Definition %s : bytes := [%s]." % (n, "; ".join(str(int(h[i:i + 2], 16)) for i in range(0, len(h), 2))))
+    return "\n".join(head + body + ["Definition hdoms : list hdom := [%s]." % "; ".join(hn),
+                                    "Definition hddoms : list hddom := [%s]." % "; ".join(dn),
+                                    "Definition pdoms : list pdom := [%s]." % "; ".join(pn)]) + "\n"
+
+
+def coq_tie_hash(rep, o, seed):
+    """the hash-translating cases and the policy cases against translate_iter_h / translate_desc_h / ptranslate_iter / ptranslate /
+    pkeys / pfor_each_key / pfor_any_key, inside Coq. Must run after coq_tie (it imports TranslateCasesGen)."""
+    tdir = os.path.join(vlib.COQ, "Tables")
+    try:
+        src = gen_hash_coq(o)
+    except DumpError as e:
+        rep.violation("tie:dump", "cannot convert a dump into a model term: %s" % e,
+                      {"property": PID, "broken_tie": "dump -> Coq term conversion (hash / policy cases)", "error": str(e)}, False)
+        return False, 0
+    open(os.path.join(tdir, "TranslateHashCasesGen.v"), "w").write(src)
+    c1 = vlib.coqc("Tables/TranslateHashCasesGen.v")
+    if c1.returncode != 0:
+        raise RuntimeError("generated TranslateHashCasesGen.v does not compile: " + (c1.stderr or c1.stdout)[-2000:])
+    c2 = vlib.coqc("Tables/TranslateHashCasesCheck.v")
+    if c2.returncode == 0:
+        return True, 0
+    c3 = vlib.coqc("Tables/TranslateHashCasesDiag.v")
+    val = coq_value(c3.stdout) if c3.returncode == 0 else None
+    if val is None:
+        rep.violation("tie:diag", "hash_cases_match_model / policy_cases_match_model fails and the diagnosis did not run: " + (c3.stderr or c2.stderr)[-800:],
+                      {"property": PID, "broken_tie": "Tables/TranslateHashCasesCheck.v"}, False)
+        return False, 0
+    n = 0
+    kinds = ["OK", "TranslatorErr", "OuterError", "PANIC"]
+
+    def report(dom, cases):
+        nonlocal n
+        tl = [t for t in o["TH"] if t["dom"] == dom]
+        for (pos, (mk, mv)) in cases:
+            n += 1
+            t = tl[pos]
+            name, fp, fa = o["M"][t["mapid"]]
+            rep.violation("tie:translate-hash", "implementation and model disagree on translate_pk of [%s] %s under keys %s %s fail-at %s, hashes mode %d %s: "
+                          "impl %s (calls %s), model %s %d" % (dom, o["V"][dom][t["vid"]], name, fp, fa, t["hmode"], t["harg"], t["res"], t["calls"], kinds[mk], mv),
+                          {"property": PID, "seed": seed, "domain": dom, "value": o["V"][dom][t["vid"]],
+                           "mapping": {"name": name, "fp": fp, "fail_at": fa, "hash_mode": t["hmode"], "hash_arg": t["harg"]},
+                           "implementation": t["res"], "calls": t["calls"], "model": [kinds[mk], mv],
+                           "broken_tie": "Tables/TranslateHashCasesCheck.v"}, False)
+
+    for dom, cases in zip(MS_DOMS, val[0]):
+        report(dom, cases)
+    for dom, cases in zip(DESC_DOMS, val[1]):
+        report(dom, cases)
+    for dom, (cases, icases) in zip(POL_DOMS, val[2]):
+        report(dom, cases)
+        for vid in icases:
+            n += 1
+            rep.violation("tie:policy-keys", "implementation and model disagree on keys / for_each_key / for_any_key of [%s] %s: %s" %
+                          (dom, o["V"][dom][vid], o["I"][dom][vid]),
+                          {"property": PID, "seed": seed, "domain": dom, "value": o["V"][dom][vid], "observed": list(o["I"][dom][vid]),
+                           "broken_tie": "policy_cases_match_model (key iteration)"}, False)
+    if n == 0:
+        rep.violation("tie:unknown", "TranslateHashCasesCheck.v fails: " + (c2.stderr or c2.stdout)[-800:],
+                      {"property": PID, "broken_tie": "Tables/TranslateHashCasesCheck.v"}, False)
+    return False, n
 
 
 def robs(res, parse):
@@ -363,25 +662,39 @@ def run(rep, tier, seed, replay):
         vids = [v for v, d in o["V"].get(dom, {}).items() if d == val]
         if vids:
             o["T"] = [t for t in o["T"] if t["dom"] == dom and t["vid"] in vids]
+            o["TH"] = [t for t in o["TH"] if t["dom"] == dom and t["vid"] in vids]
             o["I"] = {dom: {v: o["I"][dom][v] for v in vids if v in o["I"].get(dom, {})}}
             o["D"] = {dom: {v: o["D"][dom][v] for v in vids if v in o["D"].get(dom, {})}} if dom in o["D"] else {}
             o["C"] = {dom: {v: o["C"][dom][v] for v in vids if v in o["C"].get(dom, {})}} if dom in o["C"] else {}
     st = oracle(rep, o, seed)
+    oracle_hash(rep, o, seed, st)
     tie_ok, ndiff = coq_tie(rep, o, seed)
+    if replay and (len(o["I"]) < 2 or not tie_ok):
+        # replays keep one domain's observations; the policy / hash tables need the whole run
+        htie_ok, hdiff = tie_ok, 0
+    else:
+        htie_ok, hdiff = coq_tie_hash(rep, o, seed)
     samples = []
     for t in o["T"][5:4000:331][:8]:
         name, fp, fa = o["M"][t["mapid"]]
         samples.append({"domain": t["dom"], "value": o["V"][t["dom"]][t["vid"]][:300], "mapping": name, "fp": fp, "fail_at": fa,
                         "result": t["res"][:300], "calls": t["calls"]})
     rep.coverage.update({
-        "obligations": len(thms) + 2,
-        "discharged": (len(thms) if ok else 0) + (2 if tie_ok else 0),
+        "obligations": len(thms) + 5,
+        "discharged": (len(thms) if ok else 0) + (2 if tie_ok else 0) + (3 if htie_ok else 0),
         "checker_cmd": "make -C coq ; coqc Properties/C20.v ; verif-harness translate <seed> | tools/props/c20.py -> "
                        "coqc Tables/TranslateCasesGen.v Tables/TranslateCasesCheck.v",
         "trusted_base": vlib.TRUSTED_BASE_COMMON + [
             "the canonical dumps of harness/src/translate.rs (independent traversal) and the token-level substitution of c20.py",
             "rust-bitcoin script parsing/building and hash160 for the byte-level script substitution"],
-        "evaluations": st["cases"] + st["iter"] + st["derive"] + st.get("compose", 0),
+        "evaluations": st["cases"] + st["iter"] + st["derive"] + st.get("compose", 0) + st["hash_cases"],
+        "hash_translation_cases": st["hash_cases"],
+        "hash_translation_results": {"ok": st["hash_ok"], "translator_err": st["hash_translator_err"], "outer_err": st["hash_outer_err"]},
+        "hash_mode_histogram": dict(sorted(st["by_hash_mode"].items())),
+        "hash_cases_compared_in_coq": len(o["TH"]),
+        "policy_cases_compared_in_coq": len([t for t in o["TH"] if t["dom"] in POL_DOMS]),
+        "policy_iteration_cases_compared_in_coq": sum(len(o["I"].get(d, {})) for d in POL_DOMS),
+        "differing_hash_cases": hdiff,
         "composition_cases": st.get("compose", 0),
         "distinct_nontrivial": sum(len(v) for v in o["V"].values()),
         "translation_cases": st["cases"], "iteration_cases": st["iter"], "derive_cases": st["derive"],
@@ -400,8 +713,8 @@ def run(rep, tier, seed, replay):
         "samples": samples,
     })
     rep.assumptions = [
-        "hash translation is the identity in all runs (Translator::sha256 etc. clone); only key translation is modelled",
+        "hash translators: identity, first-byte flip (injective), constant (non-injective), failing on one chosen hash, failing on one "
+        "hash kind; the translators are pure functions of (call index, key / hash) as far as the model is concerned",
         "ext.pk_cost equals the length of the encoded script (C09's subject): the model's script-size re-check uses the encoder's length; "
         "a size failure is accepted by the oracle iff the byte-level substituted script exceeds the context's limit; the recursion-depth limit is not reached",
-        "policy translation is judged by the oracle only (no Coq model of the policy types)",
         "the byte-level script check is skipped for values containing sortedmulti (the key order may legitimately change)"]
